@@ -86,7 +86,7 @@ def run_batch(ctx, c07, tab, cases, ids, objdir, tag):
     if not os.path.exists(rt):
         open(rt, "w").write(RUNTIME)
     try:
-        exe = il2c.build_native(out, ctx.scratch, name="auto_" + tag, runtime_c=rt, sanitize=False, opt="-O0")
+        exe = il2c.build_native(out, ctx.scratch, name="auto_" + tag, runtime_c=rt, sanitize=True, opt="-O0")
     except (il2c.Unsupported, ilparse.ILSyntaxError, RuntimeError) as e:
         return "exec:translate:%s" % str(e)[:200], {}, {}
     rc, so, se = il2c.run_native(exe, timeout=60)
